@@ -123,7 +123,13 @@ func (m *Meta) Views() iter.Seq2[string, string] {
 func (m *Meta) Infos() iter.Seq[*Info] {
 	return func(yield func(*Info) bool) {
 		m.info.All()(func(info *Info) bool {
-			return info.IsTomb() || yield(info)
+			if info.IsTomb() {
+				return true
+			}
+			if ti, ok := m.difInfo[info.Table]; ok {
+				info = ti // the transaction's own updates override
+			}
+			return yield(info)
 		})
 	}
 }
